@@ -3,3 +3,4 @@ EVENTS = []          # dicts appended by every lifecycle participant
 CURRENT = [None]     # the model most recently created by RModel.decode (for events that are not handed the model)
 FLAKY = {'armed': False}     # while armed, FlakyAgent / FailingSystem raise at their scripted point
 SHARED = {}          # 'decoder' / 'inner': set by the harness for hooks that decode a nested description
+EXECUTED = []    # ids of the decoded systems in the order in which they ran (first timestep of a decoded model)
